@@ -176,6 +176,9 @@ func main() {
 				for _, v := range o.Violations {
 					fmt.Fprintf(os.Stderr, "   VIOL %s: %s %v\n", v.Kind, v.Msg, v.Values)
 				}
+				for k, v := range res.ChoiceStats {
+					fmt.Fprintf(os.Stderr, "   forks from %s: %d\n", k, v)
+				}
 				for _, pr := range o.Prints {
 					fmt.Fprintf(os.Stderr, "   print: %s\n", pr)
 				}
